@@ -190,7 +190,7 @@ class Reader:
         self.close()
 
     def __getitem__(self, item):
-        if isinstance(item, int) or isinstance(item, slice):
+        if isinstance(item, (int, np.integer, slice)):
             return self.read(nsel=item, sync=False)
         elif len(item) == 2:
             return self.read(nsel=item[0], csel=item[1], sync=False)
@@ -286,6 +286,10 @@ class Reader:
             raise IOError("Reader not open; call `open` before `read`")
         if hasattr(self, 'raw_channel_order'):
             csel = self.raw_channel_order[csel]
+        if isinstance(nsel, (int, np.integer)):
+            # as numpy does: IndexError when out of bounds. mtscomp wraps integers below -ns around and returns an empty
+            # array for numpy integers
+            nsel = range(self.ns)[nsel]
         if self.is_mtscomp and isinstance(nsel, slice) and nsel.step is not None and nsel.step < 0:
             # mtscomp only reads forward slices: read the covered range forward, then apply the negative step
             ind = range(*nsel.indices(self.ns))
